@@ -123,6 +123,37 @@ theorem slice_member_inv (shape axes : List Nat) (its nits : List Item) (res : L
       rw [hout]
       exact applyAxes_len hnorm hres _ none none none hget?
 
+/-- **The i-th aligned axes of all members keep equal lengths under numeric slicing**: two members
+whose aligned axes have pairwise equal lengths, sliced with the same index, again have pairwise
+equal lengths on the aligned axes recorded for the results — whatever each member's own axis
+order. (Corollary of the per-member invariant; with `slice_member_inv` it lifts to any number
+of members.) -/
+theorem slice_aligned_lengths_equal (shape1 axes1 shape2 axes2 : List Nat) (its nits1 nits2 : List Item)
+    (res1 res2 : List AxisRes)
+    (hnd1 : axes1.Nodup) (hlt1 : ∀ a ∈ axes1, a < shape1.length)
+    (hnd2 : axes2.Nodup) (hlt2 : ∀ a ∈ axes2, a < shape2.length)
+    (hsame : axes1.length = axes2.length) (hlen : its.length ≤ axes1.length)
+    (hbasic : ∀ it ∈ its, it ≠ .ellipsis ∧ it ≠ .none)
+    (hnorm1 : normItems shape1 (memberItems shape1.length axes1 its) = .ok nits1)
+    (hres1 : applyAxes shape1 nits1 = .ok res1)
+    (hnorm2 : normItems shape2 (memberItems shape2.length axes2 its) = .ok nits2)
+    (hres2 : applyAxes shape2 nits2 = .ok res2)
+    (heq : ∀ p, p < axes1.length → shape1.getD (axes1.getD p 0) 0 = shape2.getD (axes2.getD p 0) 0) :
+    ∀ k, k < axes1.length - (intPositions its).length →
+      (resultShape res1).getD ((dropLoop (intPositions its) axes1).getD k 0) 0 =
+      (resultShape res2).getD ((dropLoop (intPositions its) axes2).getD k 0) 0 := by
+  intro k hk
+  obtain ⟨_, _, h1⟩ := slice_member_inv shape1 axes1 its nits1 res1 hnd1 hlt1 hlen hbasic hnorm1 hres1
+  obtain ⟨_, _, h2⟩ := slice_member_inv shape2 axes2 its nits2 res2 hnd2 hlt2 (by omega) hbasic hnorm2 hres2
+  have hdb : ∀ d ∈ intPositions its, d < axes1.length := by
+    intro d hd
+    have := (intPositions_mem its d).mp hd
+    omega
+  obtain ⟨_, _, hget⟩ := update_aligned_axes_spec (intPositions its) axes1 (intPositions_sorted its) hdb hnd1
+  have hp := (hget k hk).2.1
+  rw [(h1 k hk).2, (h2 k (by omega)).2, heq _ hp]
+
+
 /-! ## The collection-level invariant and its induction over edit histories -/
 
 /-- Keys and aligned-axes entries are in one-to-one correspondence (same keys, same order). -/
